@@ -102,7 +102,7 @@ def check_colr_font(built, want_clip_check=True):
                     if not l.contours:
                         continue
                     bb = geom.bbox(l.contours)
-                    e = 1.0 * max(1.0, l.sigma) + l.err + 0.01
+                    e = (0.5 + 0.001 * cfg.upem) * max(1.0, l.sigma) + 0.5 + l.err + 0.01
                     out = max(box[0] - bb[0], box[1] - bb[1], bb[2] - box[2], bb[3] - box[3])
                     if out > e:
                         problems.append({"what": "clip box cuts painted content", "input": i, "glyph": name, "layer": li, "protrusion": round(out, 3), "allowed": round(e, 3), "clip": box, "layer_bbox": bb})
@@ -180,8 +180,8 @@ def check_picosvg_font(built):
                 gl = got[p["layer"]]
                 e_svg = getattr(gl, "err_svg", 0.0)
                 p["err_svg"] = round(e_svg, 3)
-                if gl.transformed and p["hausdorff"] <= p["eps_out"] + e_svg:
-                    p["mechanism"] = "F8-use-matrix-3-decimals"
+                if p["hausdorff"] <= p["eps_out"] + e_svg:
+                    p["mechanism"] = "F8-svg-transform-3-decimals"
         problems.extend(pr)
         stats["layers"] += len(ref)
         stats["gradient_layers"] += st["gradient_layers"]
